@@ -27,6 +27,8 @@ func main() {
 		rep = suiteEvaluators(*tier, *seed, *model)
 	case "C17":
 		rep = suiteMatchDoc(*tier, *seed, *model)
+	case "C07":
+		rep = suiteReuse(*tier, *seed, *model)
 	case "C18":
 		rep = suiteConvert(*tier, *seed, *model)
 	case "C19":
